@@ -48,8 +48,9 @@ TRUSTED = [
     'section variable isprintable (Unicode table behind str.isprintable, consulted by repr for code points >= 128): '
     'arbitrary in every theorem; in the correspondence the harness supplies the non-printable code points of each case',
     'modelled, not verified (tied by correspondence only): html.escape, repr(str), json.dumps string escaping, '
-    'str.format over error.html (template taken from Gen.error_template), the texts pinned in model/ErrPage.v '
-    '(status lines, framework error bodies, last-resort page) ',
+    'str.format over error.html (template taken from Gen.error_template); the literal texts of model/ErrPage.v are '
+    'proved equal to the translator\'s constants (C20_texts_pinned) except the Accept prefix of is_json_requested, '
+    'the PATH_INFO default "/" of the last-resort page and Python\'s None/null spellings',
     'not modelled: urlquote/urljoin/SplitResult.geturl (the model receives request.url; theorems quantify over any '
     'URL string), format_exc() (the traceback text is an input), which handler behaviour triggers which error kind',
     'the JSON reader in model/ErrPage.v (spec side of C20_json_valid) is compared with json.loads on the fragment '
